@@ -317,12 +317,62 @@ def validate_file(ctx, unit, sd, module, tr, cfgkind="trace", max_rounds=6, time
             break
     else:
         ctx.inconclusive.append("%s: more than %d rejected traces, rest not validated" % (module, max_rounds))
+    if ctx.thorough and traces and rejected == 0:
+        binding_control(ctx, unit, sd, module, traces[0], cfgkind, timeout)
     ctx.validated += total_traces - rejected if rejected < total_traces else 0
     ctx.bump("validated_trace_events", events)
     unit.info["trace"] = {"traces": total_traces, "rejected": rejected, "events": sum(len(t) for t in traces)}
     if traces:
         ctx.sample({"unit": unit.name, "flow": "code->model (recorded trace, first lines)",
                     "trace": [json.loads(x) for x in traces[0][:8]]})
+
+
+def _corrupt(v):
+    """alter the first boolean / integer leaf found (depth-first); returns (new value, changed?)"""
+    if isinstance(v, bool):
+        return (not v), True
+    if isinstance(v, int):
+        return v + 1, True
+    if isinstance(v, list):
+        for i, x in enumerate(v):
+            nx, ch = _corrupt(x)
+            if ch:
+                return v[:i] + [nx] + v[i + 1:], True
+    if isinstance(v, dict):
+        for k in sorted(v):
+            nx, ch = _corrupt(v[k])
+            if ch:
+                nv = dict(v)
+                nv[k] = nx
+                return nv, True
+    return v, False
+
+
+def binding_control(ctx, unit, sd, module, trace, cfgkind, timeout):
+    """negative control of the code->model binding (thorough tier): one recorded observation of an ACCEPTED trace is
+    corrupted; TLC must reject the trace at that line, otherwise the trace spec constrains nothing."""
+    evs = [json.loads(x) for x in trace]
+    accepted_corruptions = 0
+    for i in range(len(evs) - 1, 0, -1):
+        for field in ("res", "st"):
+            if field in evs[i]:
+                nv, ch = _corrupt(evs[i][field])
+                if ch:
+                    evs2 = [dict(e) for e in evs]
+                    evs2[i][field] = nv
+                    path = os.path.join(ctx.out, "%s.control.ndjson" % module)
+                    with open(path, "w") as fh:
+                        fh.write("\n".join(json.dumps(e) for e in evs2) + "\n")
+                    v = flows.validate(sd, module, path, cfgkind=cfgkind, timeout=timeout)
+                    if v.get("accepted"):
+                        # (with nondeterministic specs the altered observation can be another allowed outcome: try elsewhere)
+                        accepted_corruptions += 1
+                        if accepted_corruptions >= 3:
+                            raise Inconclusive("binding control: %s accepted 3 traces with a corrupted observation (last: %s at line %d)" % (module, field, i + 1))
+                        continue
+                    ctx.bump("binding_controls_rejected")
+                    return
+    ctx.bump("binding_controls_skipped")
 
 
 class McUnit(Unit):
